@@ -366,7 +366,7 @@ func (x *Exec) appendBuiltin(st *State, c *ssa.CallCommon, args []SVal, pos toke
 		return
 	}
 	newLen := plus(s.Len, t.Len)
-	write := func(base string, off string) string {
+	write := func(st *State, base string, off string) string {
 		if n >= 0 && n <= 8 {
 			arr := base
 			for j := int64(0); j < n; j++ {
@@ -385,7 +385,7 @@ func (x *Exec) appendBuiltin(st *State, c *ssa.CallCommon, args []SVal, pos toke
 	x.Paths++
 	if s.Loc != "arr!nil" {
 		st.assume(fits)
-		st.Heap[s.Loc] = SVal{K: KU, T: write(sa, s.Off)}
+		st.Heap[s.Loc] = SVal{K: KU, T: write(st, sa, s.Off)}
 		st.Written[s.Loc] = true
 		k(st, Exit{Kind: ExitReturn, Results: []SVal{{K: KSlice, Loc: s.Loc, Off: s.Off, Len: newLen, Cap: s.Cap, GoT: s.GoT}}})
 	}
@@ -396,7 +396,7 @@ func (x *Exec) appendBuiltin(st *State, c *ssa.CallCommon, args []SVal, pos toke
 	nu := x.D.fresh("arr@grown", "(Array Int "+es+")")
 	ncap := q(x.D.fresh("cap", "Int"))
 	st2.assume("(>= " + ncap + " " + newLen + ")")
-	st2.Heap[nu] = SVal{K: KU, T: write(sa, s.Off)}
+	st2.Heap[nu] = SVal{K: KU, T: write(st2, sa, s.Off)}
 	st2.Written[nu] = true
 	k(st2, Exit{Kind: ExitReturn, Results: []SVal{{K: KSlice, Loc: nu, Off: s.Off, Len: newLen, Cap: ncap, GoT: s.GoT}}})
 }
@@ -507,7 +507,8 @@ func (x *Exec) static(st *State, fn *ssa.Function, c *ssa.CallCommon, args []SVa
 		}
 	}
 	// an unknown callee that is handed a slice may write its elements (sort.Slice, io.Reader.Read, copy helpers)
-	if spec == nil || spec.Modular == nil {
+	readOnly := pkg != "" && isRoPkg(pkg) && fn.Blocks != nil && !mayWriteSliceParams(fn) // a library function that only reads the slices it is given
+	if (spec == nil || spec.Modular == nil) && !readOnly {
 		for _, a := range args {
 			if a.K == KSlice && a.Loc != "arr!nil" {
 				if _, ok := st.Heap[a.Loc]; ok {
